@@ -73,6 +73,7 @@ let run_pool params ops =
       | 1 -> pstate_new esz false
       | _ -> pstate_new esz true) in
   let seen : ((z * z) * int) list ref = ref [] in
+  let mcount = ref 0 in      (* a stamp container has no elem_count: harness and driver count successful allocations *)
   let out = List.map (fun tok ->
     let (o, a) = fields tok in
     let arg i = List.nth a i in
@@ -81,7 +82,9 @@ let run_pool params ops =
     | "a" ->
       (match stepop PAlloc with
        | OAlloc (None, _, _, _, _) -> "a null"
-       | OAlloc (Some it, fresh, distinct, _, c) ->
+       | OAlloc (Some it, fresh, distinct, _, c0) ->
+         incr mcount;
+         let c = if kind = 0 then zi !mcount else c0 in
          let was = List.mem_assoc it !seen in
          let id = if was then List.assoc it !seen else (let n = List.length !seen in seen := (it, n) :: !seen; n) in
          let content = if kind = 2 then h (cget (ps_mem !st) it) else "-" in
@@ -90,8 +93,8 @@ let run_pool params ops =
     | "f" -> (match stepop (PFree (nat_of_z (arg 0))) with OFree c -> "f " ^ h c | _ -> "?")
     | "w" -> ignore (stepop (PWrite (nat_of_z (arg 0), arg 1))); "w"
     | "r" -> (match stepop (PRead (nat_of_z (arg 0))) with ORd v -> "r " ^ h v | _ -> "?")
-    | "t" -> (match stepop PTruncate with OTr c -> seen := []; "t " ^ h c | _ -> "?")
-    | "c" -> (match stepop PCount with OCn c -> Printf.sprintf "c %s 1" (h c) | _ -> "?")
+    | "t" -> (match stepop PTruncate with OTr c -> seen := []; mcount := 0; "t " ^ h c | _ -> "?")
+    | "c" -> (match stepop PCount with OCn c -> Printf.sprintf "c %s 1" (h (if kind = 0 then zi !mcount else c)) | _ -> "?")
     | _ -> "UNKNOWN_OP") ops in
   String.concat " ; " (out @ ["E 0"])
 
